@@ -80,7 +80,7 @@ def run_seed(seed, confirm, extra_props, tier):
             rc, out = sh("./check %s %s" % (p, tier), cwd="/verif", env=env, timeout=7200)
             lines = out.splitlines()
             first = next((l for l in lines if l.startswith(("VIOLATION", "UNDECIDED"))), "")
-            obl = [l.strip() for l in lines if "failed obligation" in l or "FAILED" in l][:4]
+            obl = [l.strip() for l in lines if ("failed obligation" in l or "FAILED" in l) and "canary" not in l][:4]
             det[p] = {"rc": str(rc), "line": first, "obligation": " ;; ".join(obl)[:600], "tier": tier, "seconds": int(time.time() - t0),
                       "verif_commit": subprocess.run(["git", "-C", "/verif", "rev-parse", "--short", "HEAD"], capture_output=True, text=True).stdout.strip()}
             open(os.path.join("/var/tmp", "seedrun-%s-%s.log" % (seed, p)), "w").write(out)
@@ -94,6 +94,22 @@ def run_seed(seed, confirm, extra_props, tier):
         sh("git -C /repo worktree remove --force %s" % wt)
         shutil.rmtree(wt, ignore_errors=True)
         shutil.rmtree("/var/tmp/seed-evidence-%s" % seed, ignore_errors=True)
+
+
+def import_seed(seed):
+    """copy a sub-agent's output (/tmp/seed-out/<seed>/{patch.diff,demo.rs,demo.txt,meta.txt}) into seeded/<seed>/ and start its meta.json"""
+    src, dst = os.path.join("/tmp/seed-out", seed), os.path.join(SEEDED, seed)
+    os.makedirs(dst, exist_ok=True)
+    for f in ("patch.diff", "demo.rs", "demo.txt"):
+        shutil.copy(os.path.join(src, f), os.path.join(dst, f))
+    props = {json.loads(l)["id"]: json.loads(l)["title"] for l in open("/verif/properties.jsonl")}
+    mt = os.path.join(src, "meta.txt")
+    meta = {"seed": seed, "breaks_property": seed.split("-")[0], "property_title": props.get(seed.split("-")[0], ""),
+            "what_it_needs_to_manifest": open(mt).read().strip()[:3000] if os.path.exists(mt) else "",
+            "origin": "fresh sub-agent given only the property text and a private worktree of /repo",
+            "what_i_ran": ["git apply patch.diff in a fresh worktree of /repo HEAD", "cargo test --workspace --offline (must pass with the patch)",
+                           "the demonstration (must fail with the patch, pass without)", "VERIF_REPO=<worktree with patch> ./check <id> quick for the ids under `detection`"]}
+    json.dump(meta, open(os.path.join(dst, "meta.json"), "w"), indent=1)
 
 
 def matrix():
@@ -127,6 +143,9 @@ if __name__ == "__main__":
     if "--props" in a:
         extra = a[a.index("--props") + 1].split(",")
     seeds = [x for x in a if re.match(r"^C\d+-\d+$", x)]
+    if "--import" in a:
+        for s_ in seeds:
+            import_seed(s_)
     if "all" in a:
         seeds = sorted(os.path.basename(os.path.dirname(p)) for p in glob.glob(os.path.join(SEEDED, "C*-*", "patch.diff")))
     for s in seeds:
